@@ -51,6 +51,8 @@ MUTANTS = {
     'c05-csc-orientation-guard': ('C05', HI, '_mesh->orientation(*hf_it, _ref_h) != _mesh->opposite_orientation(_orthDir)) {', '_mesh->orientation(*hf_it, _ref_h) != _mesh->opposite_orientation(_mesh->orientation(*hf_it, _ref_h))) {', 'hex'),
     'c05-tv-backward-keeps-lap': ('C05', TI, 'cur_index_ = vertices_.size() - 1;\n        --lap_;', 'cur_index_ = vertices_.size() - 1;', 'tet'),
     'c05-hv-forward-never-ends': ('C05', HI, 'HexVertexIter& HexVertexIter::operator++() {\n\n    ++cur_index_;\n    if(cur_index_ == vertices_.size()) {\n        cur_index_ = 0;\n        ++lap_;\n        if (lap_ >= max_laps_)', 'HexVertexIter& HexVertexIter::operator++() {\n\n    ++cur_index_;\n    if(cur_index_ == vertices_.size()) {\n        cur_index_ = 0;\n        ++lap_;\n        if (lap_ > max_laps_)', 'hex'),
+    # seeded/C15e_tet_add_halfface_bypasses_valence_guard (bin/seedtest.py: CAUGHT, C15:TetShape)
+    'tet-add-halfface-bypasses-guard': ('C15', TK, 'return halfface_handle(add_face(_halfedges, _topologyCheck), 0);', 'return halfface_handle(TopologyKernel::add_face(_halfedges, _topologyCheck), 0);', 'face-entry'),
     'tet-label-getlabel-halfedge': ('C15', TTC, 'return opposite(hel);', 'return hel;', 'labels'),
     'tet-label-constructor-cd': ('C15', TTC, 'hfh<ACD>() = cur_hfh;\n                heh_[CD] = *heh_it;', 'hfh<ACD>() = cur_hfh;\n                heh_[CD] = heh;', 'labels'),
     'tet-triangle-start': ('C15', TRC, 'if (idx == 0 && _mesh.from_vertex_handle(heh) != _a) {', 'if (idx == 0 && _mesh.to_vertex_handle(heh) != _a) {', 'labels'),
